@@ -543,4 +543,217 @@ theorem crun_workers : ∀ (ops : List COp) (c : Conn),
       have := ih (connClosed c)
       simpa [crun, cstep, workerEvs, accepted, connClosed] using this
 
+/-! ### the upgrade hold (FC18f): `connDataU` / `crunU` -/
+
+theorem chainTo_shift : ∀ (raws : List Bytes) (d : Bytes) (o a b : Nat), o ≤ d.length →
+    chainTo (d.drop o) a raws b → chainTo d (o + a) raws (o + b) := by
+  intro raws
+  induction raws with
+  | nil => intro d o a b _ h; simp only [chainTo] at h ⊢; omega
+  | cons raw t ih =>
+    intro d o a b ho h
+    obtain ⟨n, hn, hle, hx, hrest⟩ := h
+    simp only [List.length_drop] at hle
+    refine ⟨n, hn, by omega, by rw [List.drop_drop] at hx; exact hx, ?_⟩
+    have := ih d o (a + n) b ho hrest
+    rw [← Nat.add_assoc] at this
+    exact this
+
+theorem chainTo_ext : ∀ (raws : List Bytes) (d x : Bytes) (o o' : Nat),
+    chainTo d o raws o' → chainTo (d ++ x) o raws o' := by
+  intro raws
+  induction raws with
+  | nil => intro d x o o' h; exact h
+  | cons raw t ih =>
+    intro d x o o' h
+    obtain ⟨n, hn, hle, hx, hrest⟩ := h
+    refine ⟨n, hn, by simp only [List.length_append]; omega, ?_, ih d x _ _ hrest⟩
+    rw [List.drop_append_of_le_length (by omega)]
+    exact (extractOne_spec _ x _ hx (by simp)).1
+
+theorem chainTo_append : ∀ (a b : List Bytes) (d : Bytes) (o m o' : Nat),
+    chainTo d o a m → chainTo d m b o' → chainTo d o (a ++ b) o' := by
+  intro a
+  induction a with
+  | nil => intro b d o m o' h1 h2; simp only [chainTo] at h1; subst h1; exact h2
+  | cons raw t ih =>
+    intro b d o m o' h1 h2
+    obtain ⟨n, hn, hle, hx, hrest⟩ := h1
+    exact ⟨n, hn, hle, hx, ih b d _ m o' hrest h2⟩
+
+/-- one pass of the request loop (with the `break` behind an Upgrade request): the extracted requests are the greedy chain
+from the front of the buffer, the remainder is what follows the chain -/
+theorem drainRawU_chain (f : Nat) : ∀ buf : Bytes,
+    ∃ k, k ≤ buf.length ∧ (drainRawU f buf).2.2.1 = buf.drop k ∧ chainTo buf 0 (drainRawU f buf).1 k := by
+  induction f with
+  | zero => intro buf; exact ⟨0, Nat.zero_le _, by simp [drainRawU], by simp [drainRawU, chainTo]⟩
+  | succ f ih =>
+    intro buf
+    simp only [drainRawU]
+    cases he : extractOne buf with
+    | needMore => exact ⟨0, Nat.zero_le _, by simp, by simp [chainTo]⟩
+    | close => exact ⟨0, Nat.zero_le _, by simp, by simp [chainTo]⟩
+    | request raw0 n0 =>
+      by_cases hn : n0 = 0
+      · simp only [hn, ↓reduceIte]; exact ⟨0, Nat.zero_le _, by simp, by simp [chainTo]⟩
+      · simp only [hn, ↓reduceIte]
+        have hle := ((extractOne_spec buf [] _ he (by simp)).2 raw0 n0 rfl).2
+        by_cases hu : hasUpgrade buf = true
+        · simp only [hu, ↓reduceIte]
+          exact ⟨n0, hle, rfl, n0, by omega, by omega, by simpa using he, by simp [chainTo]⟩
+        · simp only [hu, Bool.false_eq_true, ↓reduceIte]
+          obtain ⟨k, hk, hrest, hch⟩ := ih (buf.drop n0)
+          simp only [List.length_drop] at hk
+          refine ⟨n0 + k, by omega, by rw [hrest, List.drop_drop], n0, by omega, by omega, by simpa using he, ?_⟩
+          have := chainTo_shift _ buf n0 0 k hle hch
+          simpa using this
+
+theorem tagLast_fst : ∀ (raws : List Bytes) (stop : Bool), (tagLast raws stop).map Prod.fst = raws := by
+  intro raws
+  induction raws with
+  | nil => intro _; rfl
+  | cons raw t ih =>
+    intro stop
+    cases t with
+    | nil => rfl
+    | cons r2 t2 => simp only [tagLast, List.map_cons]; rw [ih stop]
+
+theorem routeU_extracted : ∀ (l : List (Bytes × Bool)) (k : Nat), extracted (routeU l k).1 = l.map Prod.fst := by
+  intro l
+  induction l with
+  | nil => intro k; rfl
+  | cons p t ih =>
+    intro k
+    obtain ⟨raw, f⟩ := p
+    cases k with
+    | zero => simp [routeU, extracted, ih]
+    | succ k => simp [routeU, extracted, ih]
+
+/-- a session that is gone extracts nothing, whatever follows -/
+theorem crunU_dead : ∀ (ops : List COp) (c : ConnU), c.sess.alive = false → extracted (crunU c ops).1 = [] := by
+  intro ops
+  induction ops with
+  | nil => intro c _; rfl
+  | cons op ops ih =>
+    intro c hd
+    cases op with
+    | data seg slots =>
+      have h1 : connDataU c seg slots = (c, [], slots) := by
+        unfold connDataU; split <;> simp [hd]
+      simp only [crunU, cstepU, h1, extracted_append, extracted, List.nil_append]
+      exact ih c hd
+    | work =>
+      have hx : extracted (connWorkU c).2 = [] ∧ (connWorkU c).1.sess = c.sess := by
+        unfold connWorkU; split <;> simp [extracted]
+      simp only [crunU, cstepU, extracted_append, hx.1, List.nil_append]
+      exact ih _ (by rw [hx.2]; exact hd)
+    | closed =>
+      simp only [crunU, cstepU, extracted, List.nil_append]
+      exact ih _ (by simp [connClosedU])
+
+/-- while the hold is set, a read extracts nothing -/
+theorem connDataU_hold (c : ConnU) (seg : Bytes) (slots : Nat) (h : c.hold = true) :
+    extracted (connDataU c seg slots).2.1 = [] := by
+  unfold connDataU
+  simp only [h, ↓reduceIte]
+  split
+  · rfl
+  · split <;> simp [extracted]
+
+/-- **what is extracted is the greedy chain of the true stream** - for every interleaving of reads, pool answers, worker runs,
+close callbacks and upgrade holds (generalised over the start state: the session buffer is the tail `pre.drop o` of what has
+been received) -/
+theorem crunU_chain : ∀ (ops : List COp) (c : ConnU) (pre : Bytes) (o : Nat), o ≤ pre.length →
+    (c.sess.alive = true → c.sess.buffer = pre.drop o) →
+    ∃ o', chainTo (pre ++ (segsOf ops).flatten) o (extracted (crunU c ops).1) o' := by
+  intro ops
+  induction ops with
+  | nil => intro c pre o _ _; exact ⟨o, rfl⟩
+  | cons op ops ih =>
+    intro c pre o ho hbuf
+    cases op with
+    | work =>
+      have hx : extracted (connWorkU c).2 = [] ∧ (connWorkU c).1.sess = c.sess := by
+        unfold connWorkU; split <;> simp [extracted]
+      simp only [crunU, cstepU, segsOf, extracted_append, hx.1, List.nil_append]
+      exact ih _ pre o ho (by rw [hx.2]; exact hbuf)
+    | closed =>
+      simp only [crunU, cstepU, segsOf, extracted, List.nil_append]
+      rw [crunU_dead ops _ (by simp [connClosedU])]
+      exact ⟨o, rfl⟩
+    | data seg slots =>
+      have hcat : pre ++ (segsOf (COp.data seg slots :: ops)).flatten = (pre ++ seg) ++ (segsOf ops).flatten := by
+        simp [segsOf, List.append_assoc]
+      rw [hcat]
+      simp only [crunU, cstepU, extracted_append]
+      have hpl : o ≤ (pre ++ seg).length := by simp only [List.length_append]; omega
+      by_cases hal : c.sess.alive = true
+      · have hb := hbuf hal
+        have hb2 : c.sess.buffer ++ seg = (pre ++ seg).drop o := by
+          rw [hb, List.drop_append_of_le_length ho]
+        by_cases hlim : c.sess.buffer.length + seg.length > Gen.Http.serverMaxBufferSize
+        · -- the read is dropped, the session is gone (hold or not)
+          have h1 : (connDataU c seg slots).1.sess.alive = false ∧ extracted (connDataU c seg slots).2.1 = [] := by
+            unfold connDataU; split <;> simp [hal, hlim, extracted]
+          rw [h1.2, crunU_dead ops _ h1.1]
+          exact ⟨o, rfl⟩
+        · by_cases hh : c.hold = true
+          · have h1 : connDataU c seg slots =
+                ({ c with sess := { c.sess with buffer := c.sess.buffer ++ seg } }, [], slots) := by
+              unfold connDataU; simp [hh, hal, hlim]
+            rw [h1]
+            simp only [extracted, List.nil_append]
+            exact ih _ (pre ++ seg) o hpl (fun _ => hb2)
+          · have hh' : c.hold = false := by cases h : c.hold <;> simp_all
+            obtain ⟨k, hk, hrest, hch⟩ := drainRawU_chain ((c.sess.buffer ++ seg).length + 1) (c.sess.buffer ++ seg)
+            have hx : extracted (connDataU c seg slots).2.1 =
+                (drainRawU ((c.sess.buffer ++ seg).length + 1) (c.sess.buffer ++ seg)).1 := by
+              unfold connDataU
+              simp only [hh', hal, hlim, Bool.false_eq_true, ↓reduceIte, Bool.not_true, extracted_append,
+                routeU_extracted, tagLast_fst]
+              split <;> simp [extracted]
+            have hs : (connDataU c seg slots).1.sess.alive = true →
+                (connDataU c seg slots).1.sess.buffer = (pre ++ seg).drop (o + k) := by
+              intro _
+              unfold connDataU
+              simp only [hh', hal, hlim, Bool.false_eq_true, ↓reduceIte, Bool.not_true]
+              rw [hrest, hb2, List.drop_drop]
+            have hlen : (c.sess.buffer ++ seg).length + o = (pre ++ seg).length := by
+              rw [hb2, List.length_drop]; omega
+            obtain ⟨o', hrestc⟩ := ih (connDataU c seg slots).1 (pre ++ seg) (o + k) (by omega) hs
+            rw [hx]
+            generalize (drainRawU ((c.sess.buffer ++ seg).length + 1) (c.sess.buffer ++ seg)).1 = R at hch ⊢
+            rw [hb2] at hch
+            have c1 := chainTo_shift _ (pre ++ seg) o 0 k hpl hch
+            have c2 := chainTo_ext _ (pre ++ seg) (segsOf ops).flatten _ _ c1
+            exact ⟨o', chainTo_append _ _ _ _ _ _ (by simpa using c2) hrestc⟩
+      · have hd : c.sess.alive = false := by cases h : c.sess.alive <;> simp_all
+        have h1 : connDataU c seg slots = (c, [], slots) := by
+          unfold connDataU; split <;> simp [hd]
+        rw [h1]
+        simp only [extracted, List.nil_append]
+        rw [crunU_dead ops c hd]
+        exact ⟨o, rfl⟩
+
+/-- a pass that does not stop behind an Upgrade request is the HTTP-only request loop -/
+theorem drainRawU_no_stop (f : Nat) : ∀ buf : Bytes, (drainRawU f buf).2.2.2 = false →
+    drainRaw f buf = ((drainRawU f buf).1, (drainRawU f buf).2.1, (drainRawU f buf).2.2.1) := by
+  induction f with
+  | zero => intro buf _; rfl
+  | succ f ih =>
+    intro buf h
+    simp only [drainRawU, drainRaw] at h ⊢
+    cases he : extractOne buf with
+    | needMore => rfl
+    | close => rfl
+    | request raw n =>
+      rw [he] at h
+      by_cases hn : n = 0
+      · simp [hn]
+      · simp only [hn, ↓reduceIte] at h ⊢
+        by_cases hu : hasUpgrade buf = true
+        · simp [hu] at h
+        · simp only [hu, Bool.false_eq_true, ↓reduceIte] at h ⊢
+          rw [ih (buf.drop n) h]
+
 end Iora.Http.Srv
